@@ -890,7 +890,9 @@ where
             invert,
             cps: CodePointSet::default(),
         };
-        let unicode_icase = self.flags.unicode && self.flags.icase;
+        // Without `u` classes are closed under the same folding (see add_icase_code_points), so
+        // there \W must leave out the same two characters or the closure brings s and k back.
+        let unicode_icase = self.flags.icase;
 
         loop {
             match self.peek().map(to_char_sat) {
